@@ -1207,7 +1207,7 @@ Proof. destruct st. reflexivity. Qed.
 Lemma seg_repeat c lo hi gr : seg_stmt c -> seg_stmt (Repeat c lo hi gr).
 Proof.
   intros IH. start (Repeat c lo hi gr).
-  cbn [wfe] in Hw. cbn [zok] in Hz. cbn [acheck] in Hac. cbn [rok] in Hrk. destruct Hrk as [Hlh Hrk]. cbn [ngroups] in Hng.
+  cbn [wfe] in Hw. cbn [zok] in Hz. cbn [acheck] in Hac. cbn [rok] in Hrk. destruct Hrk as [Hlh Hrk]. cbn [ngroups] in Hng. replace (N.ltb hi lo) with false in Hv by (symmetry; apply N.ltb_ge; exact Hlh).
   pose proof (body_pres c g Hw) as Hpres.
   assert (Hoc : oke g c) by (repeat split; auto).
   destruct (N.eqb lo 0 && N.eqb hi 1) eqn:EA.
@@ -2644,7 +2644,7 @@ Qed.
 Lemma seg_repeatD lk c lo hi gr : seg_stmtD lk c -> seg_stmtD lk (Repeat c lo hi gr).
 Proof.
   intros IH. startD (Repeat c lo hi gr). cbn [visit] in Hv. rewrite Edel in Hv. rewrite (atomize_repeat bs c lo hi gr g hc Edel).
-  cbn [wfe] in Hw. cbn [zok] in Hz. cbn [acheck] in Hac. cbn [rok] in Hrk. destruct Hrk as [Hlh Hrk]. cbn [ngroups] in Hng.
+  cbn [wfe] in Hw. cbn [zok] in Hz. cbn [acheck] in Hac. cbn [rok] in Hrk. destruct Hrk as [Hlh Hrk]. cbn [ngroups] in Hng. replace (N.ltb hi lo) with false in Hv by (symmetry; apply N.ltb_ge; exact Hlh).
   assert (Hpres : forall hcx st st', st_ok cs st -> In st' (asem c g hcx st) -> st_ok cs st' /\ fst st <= fst st')
     by (intros hcx; apply body_pres; now apply at_wfe).
   assert (Hoc : oke lk g c) by (repeat split; auto).
@@ -3322,7 +3322,7 @@ Proof.
       rewrite (visit_la e la g0 hc pc ns Hlb) in Hv. rewrite Edel in Hv.
       destruct la; [eapply la_pos_vo|eapply la_neg_vo|eapply la_pos_vo|eapply la_neg_vo]; eauto.
   - (* Repeat *) destruct IHe as [IHe _]. vo_start (Repeat e lo hi gr). cbn [visit] in Hv. rewrite Edel in Hv.
-    repeat match type of Hv with (if ?b then _ else _) = _ => destruct b end;
+    repeat match type of Hv with (if ?b then _ else _) = _ => destruct b end; try discriminate;
       apply bindc_inr in Hv as ([c n1] & H1 & Hv); inversion Hv; subst; apply IHe in H1;
       repeat (first [apply okdeleg2_cons; split; [destruct gr; reflexivity|] | apply okdeleg2_app; split; [exact H1|]]);
       try exact H1; try (destruct gr; reflexivity).
@@ -3494,7 +3494,7 @@ Proof.
           now exists g0, pc, ns, r0. }
       destruct HH as [L1 L2]. cbn [lbk]. split; auto.
   - (* Repeat *) destruct IHe as [IHe _]. vl_start (Repeat e lo hi gr). cbn [visit] in Hv. rewrite Edel in Hv. cbn [lbk].
-    repeat match type of Hv with (if ?b then _ else _) = _ => destruct b end;
+    repeat match type of Hv with (if ?b then _ else _) = _ => destruct b end; try discriminate;
       apply bindc_inr in Hv as ([c n1] & H1 & Hv); eapply IHe; eauto.
   - (* AtomicGroup *) destruct IHe as [IHe _]. vl_start (AtomicGroup e). cbn [visit] in Hv. rewrite Edel in Hv.
     apply bindc_inr in Hv as ([c n1] & H1 & Hv). cbn [lbk]. eapply IHe; eauto.
